@@ -52,7 +52,9 @@ fn make_failing(rng: &mut Rng, cfg: &PicCfg, have_ref: bool) -> (Vec<u8>, Fault)
     let sorenson = cfg.flavour.sorenson();
     let inter = have_ref && rng.chance(1, 2);
     let mut pic = if inter {
-        gen_inter(rng, cfg, &InterCfg { ptype: 0, big_vectors_pct: 30, residual_pct: 60, truncate: None, allow_q: true })
+        // in Sorenson streams the failing picture is sometimes a disposable one
+        let ptype = if sorenson && rng.chance(1, 3) { 2 } else { 0 };
+        gen_inter(rng, cfg, &InterCfg { ptype, big_vectors_pct: 30, residual_pct: 60, truncate: None, allow_q: true })
     } else {
         gen_intra(rng, cfg)
     };
@@ -181,9 +183,33 @@ pub fn case(ctx: &Ctx, shard: usize, index: u64, rep: &mut Report) {
         }
     }
     let have_ref = hlen > 0;
-    // ---- failing input ----
-    cfg.tr = cfg.tr.wrapping_add(1);
-    let (x, fault) = if !have_ref && rng.chance(1, 6) {
+    // ---- failing input ---- (its temporal reference is the next one, or - one time in three - that of the picture before it)
+    if hlen == 0 || !rng.chance(1, 3) {
+        cfg.tr = cfg.tr.wrapping_add(1);
+    } else {
+        rep.count("failing_input_repeats_the_temporal_reference");
+    }
+    // ... or a *valid but unusual* picture: whether a decoder takes it or not, a refusal must change nothing
+    // (an intra-only predicted / disposable picture where no reference exists, or of another size)
+    let unusual = rng.chance(1, 12);
+    let (x, fault) = if unusual {
+        let mut c2 = cfg.clone();
+        if have_ref && rng.chance(1, 2) {
+            c2.w += if sorenson { 1 + rng.below(20) as usize } else { 4 * (1 + rng.below(5) as usize) };
+        }
+        let mut q = gen_intra(&mut rng, &c2);
+        match &mut q.hdr {
+            Hdr::Sor(hd) => hd.ptype = 1 + rng.below(2) as u8,
+            Hdr::Std(hd) => {
+                hd.inter = true;
+                if let Some(pl) = hd.plus.as_mut() {
+                    pl.ptype = 1;
+                }
+            }
+        }
+        rep.count("valid_but_unusual_inputs");
+        (q.encode(), Fault::Unimplemented)
+    } else if !have_ref && rng.chance(1, 6) {
         (vector_field_picture(&mut rng, &cfg, false).encode(), Fault::NoReferenceForP)
     } else if have_ref && rng.chance(1, 8) {
         // a complete, well-formed predicted picture of another size: fails only in the prediction
@@ -225,8 +251,9 @@ pub fn case(ctx: &Ctx, shard: usize, index: u64, rep: &mut Report) {
     }
     let describe = || format!("{} {}x{} history {} pictures, fault {:?}, continuation {} pictures; X = {}", flavour.name(), w, h, hlen, fault, k, hex(&x[..x.len().min(64)]));
     // ---- twins ----
-    let mut a = Dec::new(sorenson, false);
-    let mut b = Dec::new(sorenson, false);
+    let scal = sorenson && rng.chance(1, 4);
+    let mut a = Dec::new(sorenson, scal);
+    let mut b = Dec::new(sorenson, scal);
     // the twins' sources deliver their bytes differently (whole, or a few bytes per read call)
     a.chunk = *rng.pick(&[usize::MAX, usize::MAX, 1, 3, 64]);
     b.chunk = *rng.pick(&[usize::MAX, usize::MAX, 2, 7, 1000]);
@@ -625,7 +652,7 @@ pub fn run(ctx: &Ctx) -> (Report, String) {
     if ctx.is_main() {
         let m = ctx.scale_pct;
         rep.require("continuation_steps_compared", if ctx.tier == Tier::Thorough { 1_500_000 } else { 80_000 } * m / 100);
-        for k in ["depth=header", "depth=truncation", "depth=macroblock-header", "depth=block-data", "depth=prediction", "shared_reader_position_checks", "split:retried-ok", "split:inside-picture-header:failed-and-retried", "split:inside-block-data:failed-and-retried", "split_pictures", "shared_reader_position_checks_before_another_picture", "shared_reader_before_picture:standard:prediction", "shared_reader_before_picture:sorenson:prediction", "prediction_failures_ending_early", "long_histories", "calls_repeated_after_transient_source_error"] {
+        for k in ["depth=header", "depth=truncation", "depth=macroblock-header", "depth=block-data", "depth=prediction", "shared_reader_position_checks", "split:retried-ok", "split:inside-picture-header:failed-and-retried", "split:inside-block-data:failed-and-retried", "split_pictures", "shared_reader_position_checks_before_another_picture", "shared_reader_before_picture:standard:prediction", "shared_reader_before_picture:sorenson:prediction", "prediction_failures_ending_early", "failing_input_repeats_the_temporal_reference", "valid_but_unusual_inputs", "long_histories", "calls_repeated_after_transient_source_error"] {
             rep.require(k, 100 * m / 100);
         }
     }
